@@ -137,6 +137,17 @@ def nf(tu, n, env=None, depth=0):
                     for prm, av in zip(c['params'], a):
                         env2[prm['id']] = av
                     return nf(tu, tu.kids(sts[0])[0], env2, depth + 1)      # extract-method helper: same term
+        if k == 'CallExpr' and depth < 30:
+            c = tu.callee_fn(n)
+            if c is not None and c.get('static') and (c.get('rec') or '').startswith('rkcommon::array3D::') and not c['dep'] \
+                    and len(c.get('params', [])) == len(a):
+                body = tu.body(c)
+                sts = [x for x in tu.kids(body)] if body else []
+                if len(sts) == 1 and sts[0].get('kind') == 'ReturnStmt' and tu.kids(sts[0]):
+                    env2 = dict(env)
+                    for prm, av in zip(c['params'], a):
+                        env2[prm['id']] = av
+                    return nf(tu, tu.kids(sts[0])[0], env2, depth + 1)      # private static helper: same term
         return ('call', q, o, tuple(a))
     if k in ('CXXConstructExpr', 'CXXTemporaryObjectExpr'):
         a = [R(x) for x in ks if x.get('kind') != 'CXXDefaultArgExpr']
@@ -1281,6 +1292,55 @@ def delegate_field(tu, f):
     return (dele[0] if len(dele) == 1 else None), (vecs + boxes), (slices[0] if len(slices) == 1 else None)
 
 
+SHIFT_FORM = {}      # class -> ('modulo' | 'wrap', location of get()): which range of the stored shift get() can wrap
+
+
+def one_period_wrap(e):
+    """(i, n) if e is `i < 0 ? i + n : (i >= n ? i - n : i)` (either test first, comparisons in any spelling): the wrap that undoes
+    exactly one period"""
+    def cond(c, i_hint=None):
+        # -> ('neg', i) for i < 0 ; ('big', i, n) for i >= n
+        c = drop_casts(c)
+        if c[0] == 'un' and c[1] == '!':
+            r = cond(c[2])
+            return None
+        if c[0] != 'op' or c[1] not in ('<', '>', '<=', '>=') or len(c[2]) != 2:
+            return None
+        a, b = c[2]
+        rel = c[1]
+        if rel in ('>', '>='):
+            a, b, rel = b, a, {'>': '<', '>=': '<='}[rel]
+        if rel == '<' and b == ('int', 0):
+            return ('neg', a)
+        if rel == '<=' and a != ('int', 0) and b != ('int', 0):
+            return ('big', b, a)         # n <= i
+        return None
+    e = drop_casts(e)
+    if e[0] != '?:' or len(e) != 4:
+        return None
+    c1 = cond(e[1])
+    if c1 is None:
+        return None
+    if c1[0] == 'neg':
+        i = c1[1]
+        inner = drop_casts(e[3])
+        if inner[0] == '?:' and len(inner) == 4:
+            c2 = cond(inner[1])
+            if c2 and c2[0] == 'big' and c2[1] == i:
+                n = c2[2]
+                if drop_casts(e[2]) == op_nf('+', [i, n]) and drop_casts(inner[2]) == ('op', '-', (i, n)) and drop_casts(inner[3]) == i:
+                    return (i, n)
+        return None
+    i, n = c1[1], c1[2]
+    inner = drop_casts(e[3])
+    if inner[0] == '?:' and len(inner) == 4:
+        c2 = cond(inner[1])
+        if c2 and c2[0] == 'neg' and c2[1] == i and drop_casts(e[2]) == ('op', '-', (i, n)) and \
+                drop_casts(inner[2]) == op_nf('+', [i, n]) and drop_casts(inner[3]) == i:
+            return (i, n)
+    return None
+
+
 def check_adaptors(ctx, tu):
     R = 'R-C17-5'
     n = 0
@@ -1396,6 +1456,7 @@ def check_adaptors(ctx, tu):
             if target != act:
                 ctx.undecided(R, inst, 'delegates to %s' % show(target), loc)
             elif arg in good:
+                SHIFT_FORM[cls] = ('modulo', loc)
                 ctx.ok(R, inst, 'actual->get((where + size() + shift) % size())', loc)
             elif any(arg == ('op', '%', (op_nf('+', [where, sh]), z)) for z in sizes() for sh in shift):
                 ctx.violation(R, inst, 'reads cell (where + shift) % size(): negative for a negative shift, so the wrapped cell is '
@@ -1406,6 +1467,16 @@ def check_adaptors(ctx, tu):
                 ctx.violation(R, inst, 'shifts in the opposite direction: %s' % show(arg), loc, key=key + 'direction')
             elif arg == where:
                 ctx.violation(R, inst, 'ignores the shift', loc, key=key + 'shift')
+            elif arg[0] == 'ctor' and len(arg[2]) == 3 and all(one_period_wrap(x) for x in arg[2]):
+                wr = [one_period_wrap(x) for x in arg[2]]
+                good_i = [any(wr[j][0] == ('mem', op_nf('+', [where, sh]), c_) for sh in shift) for j, c_ in enumerate('xyz')]
+                good_n = [any(wr[j][1] == ('mem', z, c_) for z in sizes()) for j, c_ in enumerate('xyz')]
+                if all(good_i) and all(good_n):
+                    SHIFT_FORM[cls] = ('wrap', loc)
+                    ctx.ok(R, inst, 'actual->get(wrap(where + shift)) with a single conditional +-size per axis: the wrap of one period, '
+                           'valid for -size <= shift <= size (the stored shift is checked against that range)', loc)
+                else:
+                    ctx.undecided(R, inst, 'one-period wrap of %s by %s' % (show(wr[0][0]), show(wr[0][1])), loc)
             else:
                 ctx.undecided(R, inst, 'reads cell %s' % show(arg), loc)
         elif cls == 'SubBoxArray3D':
@@ -1462,6 +1533,9 @@ def check_adaptors(ctx, tu):
 # ============================================================================================
 #  R-C17-5 (continued): the shift stored by IndexShiftedArray3D is inside the period get() can wrap
 # ============================================================================================
+INF_PERIODS = 10 ** 9
+
+
 def shift_range(tu, n, env, field, depth=0):
     """(lo, hi): the value of a vec3i expression as a multiple of size(), component-wise bounds; a user-supplied shift
     parameter and the stored shift of another shifted array are taken to lie in [-1, 1] * size.  None = not recognised."""
@@ -1476,7 +1550,7 @@ def shift_range(tu, n, env, field, depth=0):
         if rd.get('id') in env:
             return env[rd['id']]
         if rd.get('kind') == 'ParmVarDecl' and 'vec_t<int, 3' in tu.sd(n).get('ct', ''):
-            return (-1, 1)
+            return (-1, INF_PERIODS)      # a user-supplied shift: not below -size (documented), unbounded above
         d = tu.node(rd.get('id'))
         if d is not None and d.get('kind') == 'VarDecl' and tu.kids(d):
             return R(tu.kids(d)[-1])
@@ -1558,16 +1632,27 @@ def check_shift_range(ctx, tu):
             ctx.undecided(R, inst, 'no initialiser for member %s' % field, tu.fn_loc(f))
             continue
         r = shift_range(tu, init, {}, field)
+        form = SHIFT_FORM.get('IndexShiftedArray3D', ('modulo', None))
+        if r is not None and form[0] == 'wrap' and r[0] >= -1 and r[1] > 1:
+            ctx.violation(R, inst, 'get() wraps with a single conditional add / subtract of size() per axis (i < 0 ? i + n : i >= n ? i - n : i), '
+                          'which undoes exactly one period, but the stored shift `%s` is not reduced: it can exceed size() (any shift >= '
+                          '-size() was handled by the modulo form), and then where + shift - size() is still >= size() and is clamped by the '
+                          'inner get() instead of wrapped; either reduce the shift modulo size() when it is stored or wrap with %%'
+                          % tu.show(init)[:100], form[1] or tu.loc(init), key='%s|%s|IndexShiftedArray3D::get|one-period-wrap' % (R, A3D))
+            continue
+        hi_ok = 1 if form[0] == 'wrap' else INF_PERIODS * 4
         if r is None:
             ctx.undecided(R, inst, 'initialiser %s of %s is not a recognised combination of shifts' % (tu.show(init)[:100], field), tu.fn_loc(f))
-        elif r[0] < -1 or r[1] > 1:
-            ctx.violation(R, inst, 'the stored shift `%s` ranges over [%d, %d] * size() (each user-supplied or stored shift lies within one '
-                          'period, [-size, size]); get() wraps with (where + size() + shift) %% size(), which is the mathematical modulo only '
+        elif r[0] < -1 or r[1] > hi_ok:
+            ctx.violation(R, inst, 'the stored shift `%s` ranges over [%s, %s] * size() (each user-supplied or stored shift is at least '
+                          '-size); get() wraps with (where + size() + shift) %% size(), which is the mathematical modulo only '
                           'for shift >= -size(): below that the C++ remainder is negative and the inner get() clamps it to 0 instead of '
-                          'wrapping - the sum has to be reduced modulo size() before it is stored' % (tu.show(init)[:100], r[0], r[1]),
+                          'wrapping - the sum has to be reduced modulo size() before it is stored'
+                          % (tu.show(init)[:100], r[0], 'inf' if r[1] >= INF_PERIODS else r[1]),
                           tu.loc(init), key=key)
         else:
-            ctx.ok(R, inst, 'stored shift %s lies within one period [-size, size]' % tu.show(init)[:80], tu.fn_loc(f))
+            ctx.ok(R, inst, 'stored shift %s is at least -size()%s: inside the range get() wraps correctly'
+                   % (tu.show(init)[:80], ' and at most size()' if form[0] == 'wrap' else ''), tu.fn_loc(f))
     ctx.floor(R, n, 1, 'IndexShiftedArray3D constructors instantiated by %s' % AST_DRIVER)
 
 
@@ -1651,14 +1736,32 @@ def check_value_range(ctx, tu):
         body = tu.body(f)
         # the running range: a local of type range_t
         rv = None
+        ranges = {}
         for st in tu.walk(body):
-            if st.get('kind') == 'VarDecl' and 'range_t<' in st.get('type', {}).get('qualType', '') and rv is None:
-                rv = st
+            if st.get('kind') == 'VarDecl' and 'range_t<' in st.get('type', {}).get('qualType', '') and 'id' in st:
+                ranges.setdefault(st['id'], st)
+                if rv is None:
+                    rv = st
+        # the running range is the local that is returned
+        for st in tu.kids(body):
+            if st.get('kind') == 'ReturnStmt' and tu.kids(st):
+                for x in tu.walk(st):
+                    if x.get('kind') == 'DeclRefExpr' and x.get('referencedDecl', {}).get('id') in ranges:
+                        rv = ranges[x['referencedDecl']['id']]
         if rv is None:
             ctx.undecided(R, inst, 'no local range_t found', tu.fn_loc(f))
             continue
         seed = 'empty'
-        ctors = [x for x in (tu.walk(tu.kids(rv)[-1]) if tu.kids(rv) else []) if x.get('kind') in ('CXXConstructExpr', 'CXXTemporaryObjectExpr')
+        seed_var = rv
+        for _ in range(4):      # `range_t v = first;` : the seed is that of the range it is copied from
+            e0 = tu.strip(tu.kids(seed_var)[-1], casts=True) if tu.kids(seed_var) else None
+            while e0 is not None and e0.get('kind') in ('CXXConstructExpr',) and len(tu.kids(e0)) == 1:
+                e0 = tu.strip(tu.kids(e0)[0], casts=True)
+            if e0 is not None and e0.get('kind') == 'DeclRefExpr' and e0.get('referencedDecl', {}).get('id') in ranges:
+                seed_var = ranges[e0['referencedDecl']['id']]
+            else:
+                break
+        ctors = [x for x in (tu.walk(tu.kids(seed_var)[-1]) if tu.kids(seed_var) else []) if x.get('kind') in ('CXXConstructExpr', 'CXXTemporaryObjectExpr')
                  and 'range_t' in tu.sd(x).get('q', '')]
         for c in ctors:
             args = [a for a in tu.kids(c) if a.get('kind') != 'CXXDefaultArgExpr']
@@ -1673,7 +1776,8 @@ def check_value_range(ctx, tu):
             else:
                 seed = 'unknown'
         vref = rv['id']
-        is_v = lambda e: (tu.strip(e) or {}).get('kind') == 'DeclRefExpr' and tu.strip(e).get('referencedDecl', {}).get('id') == vref
+        is_v = lambda e: (tu.strip(e) or {}).get('kind') == 'DeclRefExpr' and tu.strip(e).get('referencedDecl', {}).get('id') in ranges
+        is_result = lambda e: (tu.strip(e) or {}).get('kind') == 'DeclRefExpr' and tu.strip(e).get('referencedDecl', {}).get('id') == vref
         bound_of = lambda e: (tu.strip(e).get('name') if (tu.strip(e) or {}).get('kind') == 'MemberExpr' and tu.kids(tu.strip(e))
                               and is_v(tu.kids(tu.strip(e))[0]) else None)
         seen = set()
@@ -1690,8 +1794,66 @@ def check_value_range(ctx, tu):
                 assigns.append(x)
             if x.get('kind') == 'IfStmt':
                 ifs.append(x)
+        # updates of the result from inside a callable handed to the tasking system run concurrently: they need a lock
+        racy = None
+        locked = 0
+        for x in extends + assigns:
+            tgt = tu.call_parts(x)[1] if x.get('kind') == 'CXXMemberCallExpr' else tu.kids(tu.strip(tu.kids(x)[0]))[0]
+            if not is_result(tgt):
+                continue
+            chain = []
+            p_ = x
+            for _ in range(60):
+                q_ = tu.par(p_)
+                if q_ is None:
+                    break
+                chain.append((q_, p_))
+                p_ = q_
+            par_lambda = None
+            for q_, child in chain:
+                if q_.get('kind') == 'LambdaExpr':
+                    # is this lambda an argument of a parallel construct?
+                    up = q_
+                    for _ in range(6):
+                        up2 = tu.par(up)
+                        if up2 is None:
+                            break
+                        if up2.get('kind') in ('CallExpr', 'CXXMemberCallExpr'):
+                            cq = strip_targs(tu.sd(up2).get('q', ''))
+                            if cq.startswith('rkcommon::tasking::') or cq.startswith('tbb::') or cq in ('std::async', 'std::thread::thread'):
+                                par_lambda = (q_, cq)
+                            break
+                        up = up2
+                    if par_lambda:
+                        break
+            if par_lambda is None:
+                continue
+            lam = par_lambda[0]
+            has_lock = False
+            for q_, child in chain:
+                if q_ is lam:
+                    break
+                if q_.get('kind') == 'CompoundStmt':
+                    for st in tu.kids(q_):
+                        if st is child or st.get('id') == child.get('id'):
+                            break
+                        if st.get('kind') == 'DeclStmt' and any(re.search(r'\b(lock_guard|unique_lock|scoped_lock)<', d_.get('type', {}).get('qualType', ''))
+                                                               for d_ in tu.kids(st) if d_.get('kind') == 'VarDecl'):
+                            has_lock = True
+            if has_lock:
+                locked += 1
+            elif racy is None:
+                racy = (x, par_lambda[1])
+        if racy is not None:
+            x, cq = racy
+            ctx.violation(R, inst, 'the result range `%s` is updated by `%s` inside a callable passed to %s without holding a lock: tasks run '
+                          'concurrently, the update is a read-modify-write of both bounds (lower = min(lower, .), upper = max(upper, .)), '
+                          'so two tasks merging at the same time lose one contribution and the returned range no longer bounds every value'
+                          % (rv.get('name'), tu.show(x)[:60], cq.split('::')[-1]), tu.loc(x), key=key + 'unsynchronised-merge')
+            continue
         if extends and not assigns:
-            ctx.ok(R, inst, 'every visited value goes through range_t::extend (min / max on both bounds); seed: %s' % seed, tu.fn_loc(f))
+            ctx.ok(R, inst, 'every visited value goes through range_t::extend (min / max on both bounds); seed: %s%s'
+                   % (seed, '; %d merge(s) into the shared result under a lock' % locked if locked else ''), tu.fn_loc(f))
             continue
         if not assigns:
             ctx.undecided(R, inst, 'no update of the running range found', tu.fn_loc(f))
@@ -1873,6 +2035,7 @@ def run(ctx):
     ctx.assume('integer arithmetic is read modulo 2^N; nsw/nuw flags (absence of signed overflow UB) are taken at their word')
     ctx.assume('R-C17-2 (array3D): extents and the index are non-negative')
     ctx.assume('distinct pointer arguments of a driver address disjoint objects')
+    SHIFT_FORM.clear()
     jobs = [dict(unit=AST_DRIVER, config='TBB')]
     tu = ctx.front.parse_many(jobs)[0]
     ir = IR(ctx)
